@@ -380,10 +380,13 @@ func join(a, b context, node parse.Node, nodeName string) context {
 
 	// Allow a nudged context to join with an unnudged one.
 	// This means that
-	//   <p title={{if .C}}{{.}}{{end}}
-	// ends in an unquoted value state even though the else branch
-	// ends in stateBeforeValue.
-	if c, d := nudge(a), nudge(b); !(c.eq(a) && d.eq(b)) {
+	//   <p {{if .C}}title{{end}}
+	// ends in an attribute name state even though the else branch
+	// ends in stateTag.
+	// A context before an attribute value is not nudged: after
+	//   <p title={{if .C}}x{{end}} alt="y">
+	// a browser takes `alt="y"` for the unquoted value of title if the branch is not taken.
+	if c, d := nudge(a), nudge(b); !(c.eq(a) && d.eq(b)) && a.state != stateBeforeValue && b.state != stateBeforeValue {
 		if e := join(c, d, node, nodeName); e.state != stateError {
 			return e
 		}
